@@ -142,6 +142,11 @@ def build(lib):
         it.ctx.assume(z3.ForAll([j], z3.Implies(z3.And(j >= 0, j < m), z3.And(src(j) >= 0, src(j) < n, cond.get((src(j),)))), patterns=[src(j)]))
         # the first entry is the first true index
         it.ctx.assume(z3.Implies(m >= 1, z3.ForAll([i], z3.Implies(z3.And(i >= 0, i < src(0)), z3.Not(cond.get((i,)))))))
+        # increasing, and complete: every true index is listed (rank(i) = its position in the result)
+        j2 = z3.Int(it.ctx._name('jw2'))
+        rank = it.ctx.fresh_func('wrank', z3.IntSort(), z3.IntSort())
+        it.ctx.assume(z3.ForAll([j, j2], z3.Implies(z3.And(j >= 0, j < j2, j2 < m), src(j) < src(j2)), patterns=[z3.MultiPattern(src(j), src(j2))]))
+        it.ctx.assume(z3.ForAll([i], z3.Implies(z3.And(i >= 0, i < n, cond.get((i,))), z3.And(rank(i) >= 0, rank(i) < m, src(rank(i)) == i)), patterns=[rank(i)]))
         return (SArr((m,), lambda o: src(o[0]), 'int'),)
     reg('where', _where)
     reg('flatnonzero', lambda it, a, k: _where(it, [a[0] if isinstance(a[0], SArr) and a[0].dtype == 'bool' else elementwise(it, ast.NotEq(), a[0], 0)], {})[0],
@@ -212,7 +217,11 @@ def build(lib):
         def hist(o):
             b = o[0]
             return L.partial_sum(it, n, lambda j: z3.If(inbin(x.get((j,)), b), to_real(w.get((j,))) if w is not None else z3.RealVal(1), z3.RealVal(0)), 'hist')
-        h = SArr((nb,), hist)
+        # the counts have the dtype of the weights (integer without weights)
+        if w is None or w.dtype == 'int':
+            h = SArr((nb,), lambda o: z3.ToInt(hist(o)), 'int')
+        else:
+            h = SArr((nb,), hist)
         h.hist_of = (x, edges, w)
         return (h, edges)
     reg('histogram', _histogram)
@@ -222,6 +231,9 @@ def build(lib):
         query inside [xp[j], xp[j+1]], between fp[j] and fp[j+1]"""
         xq, xp, fp = a[0], a[1], a[2]
         xq = xq if isinstance(xq, SArr) else as_array(it, xq)
+        scalar_query = xq.rank == 0
+        if scalar_query:
+            xq = SArr((1,), (lambda g_: (lambda o: g_(())))(xq.get), xq.dtype)
         xp = xp if isinstance(xp, SArr) else as_array(it, xp)
         fp = fp if isinstance(fp, SArr) else as_array(it, fp)
         it.ctx.note_trusted("np.interp(xq, xp, fp): linear interpolation on increasing xp; each value lies between two neighbouring fp (end values outside the range)")
@@ -235,6 +247,8 @@ def build(lib):
                                                 z3.And(seg(q) >= 0, seg(q) + 1 < n + z3.If(n == 1, 1, 0),
                                                        f(q) >= lo(fp.get((seg(q),)), fp.get((z3.If(n == 1, seg(q), seg(q) + 1),))),
                                                        f(q) <= hi(fp.get((seg(q),)), fp.get((z3.If(n == 1, seg(q), seg(q) + 1),))))), patterns=[f(q)]))
+        if scalar_query:
+            return f(z3.IntVal(0))
         return SArr((xq.shape[0],), lambda o: f(o[0]))
     reg('interp', _interp)
 
